@@ -23,6 +23,7 @@ inductive Op
   | release
   | addUserHandlers
   | setSmCallback
+  | setSendOnConnect (on : Bool)             -- what the application's connection handler does on CONNECT
   deriving Repr
 
 /-- one API call / loop iteration.  Logs (`tx`, `evs`) are cumulative. -/
@@ -45,6 +46,7 @@ def step (c : Conn) : Op → Conn
     -- the application's catch-all stanza handler, the same function as an id handler, a timed handler
     addTimed (addIdHandler (addHandler c .userAll 0 none none none true) .userAll (b "uid1") true) .userTimed 1000 true
   | .setSmCallback => { c with smCallback := true }
+  | .setSendOnConnect on => { c with sendOnConnect := on }
 
 def exec (c : Conn) (ops : List Op) : Conn := ops.foldl step c
 
